@@ -45,6 +45,13 @@ type SimWriter struct {
 	ConnClosed int
 	LateWrites int // Write calls after the take-over
 	StrWrites  int // WriteString calls
+	// BodyRule: like net/http's writer, refuse body bytes after a final status that does not allow a body
+	// (1xx, 204, 304) with http.ErrBodyNotAllowed; Refused counts such Write calls
+	BodyRule bool
+	Refused  int
+	// RefuseHijack: the writer has a Hijack method that fails (HTTP/2, a wrapping middleware, a connection
+	// that is not in a state to be handed over): the handler falls back to an ordinary response
+	RefuseHijack bool
 }
 
 func NewSimWriter(t *Task) *SimWriter {
@@ -99,6 +106,10 @@ func (w *SimWriter) Write(p []byte) (int, error) {
 		return 0, http.ErrHijacked
 	}
 	w.sendHeader()
+	if st := w.Status(); w.BodyRule && len(p) > 0 && (st == 204 || st == 304 || (st >= 100 && st < 200)) {
+		w.Refused++
+		return 0, http.ErrBodyNotAllowed
+	}
 	k := len(w.Chunks)
 	w.Chunks = append(w.Chunks, len(p))
 	n := len(p)
@@ -155,6 +166,9 @@ type SimHijackWriter struct{ *SimWriter }
 
 func (w SimHijackWriter) Hijack() (net.Conn, *bufio.ReadWriter, error) {
 	w.here(SiteWHijack)
+	if w.RefuseHijack {
+		return nil, nil, http.ErrNotSupported
+	}
 	if w.Hijacked {
 		return nil, nil, http.ErrHijacked
 	}
